@@ -59,6 +59,7 @@ def check(run, repo, world):
     run.rule("R-FRAME-EXC", "each illegal input raises the documented "
              "exception class (spec/frame_exceptions.json)")
     _readslice_contract(run, world, mod, c)
+    _nonint_operand_rejected(run, world, mod, c)
     _slice_modes(run, world, mod, c)
     _bit_modes(run, world, mod, c)
     _value_read_after_store(run, world, mod, c)
@@ -795,6 +796,73 @@ def _slice_modes(run, world, mod, c):
                        sample={"rule": "R-FRAME-LANES", "operation":
                                "f[hi:lo] = value", "result_lanes": repr(got)}
                        if order == "start>=stop" else None)
+
+
+def _nonint_operand_rejected(run, world, mod, c):
+    """Frame.__setitem__: on the branch where the written operand failed its
+    `isinstance(<operand>, int)` test, the operand is not rebound and carried
+    on to a store.  The documented answer to a non-int is TypeError; a
+    conversion on that branch (int(), operator.index(), a try around either)
+    accepts the floats, strings and bytes the conversion happens to take.
+    Decided on the flow graph, so a `try` on that branch is read like any
+    other statement."""
+    from ..cfg import CFG, explicit_raise_only
+    fn = normalise(c.methods["__setitem__"][1], world, FR, c,
+                   aliases="params", primitives=("__init__",))
+    ps_ = [a.arg for a in fn.args.args]
+    if len(ps_) != 3:
+        raise AnalysisError("Frame.__setitem__: expected (self, key, value)")
+    val = ps_[2]
+    cfg = CFG(fn, may_raise=explicit_raise_only, name="Frame.__setitem__")
+
+    def stores(n):
+        a = n.ast
+        if n.kind != "stmt" or a is None:
+            return False
+        tg = a.targets if isinstance(a, ast.Assign) else [
+            a.target] if isinstance(a, (ast.AugAssign, ast.AnnAssign)) else []
+        return any(unparse(t) == "self._data" for t in tg)
+
+    def rebinds(n):
+        a = n.ast
+        if n.kind != "stmt" or a is None or isinstance(
+                a, (ast.If, ast.While, ast.For, ast.Try, ast.With)):
+            return False
+        return any(isinstance(x, ast.Name) and x.id == val and isinstance(
+            x.ctx, ast.Store) for x in ast.walk(a))
+    ntests, bad = 0, None
+    for t in cfg.reachable:
+        a = t.ast
+        if not (t.kind == "test" and isinstance(a, ast.Call) and unparse(
+                a.func) == "isinstance" and len(a.args) == 2 and unparse(
+                a.args[0]) == val and unparse(a.args[1]) == "int"):
+            continue
+        ntests += 1
+        for (l, m) in t.succ:
+            if l != "F":
+                continue
+            # (node, operand rebound on the way)
+            seen, stack = set(), [(m, False)]
+            while stack and bad is None:
+                x, rb = stack.pop()
+                if (x.id, rb) in seen:
+                    continue
+                seen.add((x.id, rb))
+                if rb and stores(x):
+                    bad = (t, x)
+                    break
+                rb2 = rb or rebinds(x)
+                stack += [(y, rb2) for (_, y) in x.succ]
+    run.floor("Frame.__setitem__ int tests of the written operand", ntests,
+              1)
+    run.ob("R-FRAME-EXC", FR + ".Frame.__setitem__#non-int-operand-is-not-"
+           "converted", bad is None,
+           "where `isinstance(%s, int)` failed (line %s) the operand is "
+           "rebound and carried on to the store at line %s: a non-int the "
+           "conversion accepts (a float, a numeric string) is written "
+           "instead of raising the documented TypeError" % (
+               val, bad[0].lineno if bad else "",
+               bad[1].lineno if bad else ""), where(mod, fn))
 
 
 def _value_read_after_store(run, world, mod, c):
